@@ -7,7 +7,7 @@
    schedule of all the goroutines holding ends of the streams; the arguments [ch] of
    ORecv / OFwd are the outcomes of Go's [select]s.  "forall fuel ops" therefore quantifies
    over every tree, every item sequence, every capacity and every interleaving. *)
-From Eino Require Import Base.Util Model.Stream Proofs.Stream Proofs.StreamRel Proofs.StreamWf Proofs.StreamClose Proofs.StreamLink Proofs.StreamSem Proofs.StreamEof.
+From Eino Require Import Base.Util Model.Stream Proofs.Stream Proofs.StreamRel Proofs.StreamWf Proofs.StreamClose Proofs.StreamLink Proofs.StreamSem Proofs.StreamEof Proofs.StreamOnce.
 
 (* ------------------------------------------------------------------ base streams *)
 
@@ -190,6 +190,62 @@ Theorem copy_each_child_full : forall fuel ops bs G,
 Proof. exact run_copy_child_full. Qed.
 Print Assumptions copy_each_child_full.
 
+(* ------------------------------------------------------------------ close propagation *)
+
+(* [legal_run2 fuel ops]: a legal run in which, moreover, user code closes every reader at
+   most once ("Close should be called only once") and the model's fuel suffices for every
+   Close (no Close returns the out-of-fuel error). *)
+
+(* close_propagates_once: in every such run
+   - closeRecv happens at most once per base stream, and no Close ever hits an already closed
+     channel (the panic of Go's close(closed chan) is unreachable);
+   - closedNum counts the closed children, and a copy parent closes its source exactly when
+     the last child is closed, exactly once;
+   - nothing is closed unless its owner is: a live handle closed by the user, a copy parent all
+     of whose children are closed, a forwarder that has finished (the writer is never told
+     "closed" early);
+   - conversely a closed owner has closed everything it owns, hence when every reader derived
+     from a stream is closed ([AllClosed]: recursively through copy parents; a forwarder
+     goroutine holding a converted / copied reader counts as a reader until it has finished),
+     the stream is receive-closed and the writer's next Send returns closed = true. *)
+Theorem close_propagates_once : forall fuel ops bs G,
+  run fuel init_state ops = (bs, G) -> legal_run2 fuel ops ->
+  (forall sid s, nth_error (streams (st_store G)) sid = Some s -> s_rclosed s <= 1)
+  /\ no_close_panic bs
+  /\ (forall q Q, nth_error (parents (st_store G)) q = Some Q ->
+        p_closed Q = count_none (p_cur Q)
+        /\ p_srcclosed Q = if Nat.eqb (p_closed Q) (List.length (p_cur Q)) then 1 else 0)
+  /\ (forall ro r, In r (root_refs G ro) -> rclosed (st_store G) r -> root_closed G ro)
+  /\ (forall ro r, root_closed G ro -> In r (root_refs G ro) -> rclosed (st_store G) r)
+  /\ (forall r, AllClosed G r -> rclosed (st_store G) r)
+  /\ (forall sid s x, nth_error (streams (st_store G)) sid = Some s -> AllClosed G (RS sid) ->
+        stream_send s x = (SClosed, s)).
+Proof. exact run_close_propagates. Qed.
+Print Assumptions close_propagates_once.
+
+(* the safety half needs no hypothesis on closes: in every legal run nothing is closed unless
+   its owner is *)
+Theorem not_closed_before_owner : forall fuel ops bs G,
+  run fuel init_state ops = (bs, G) -> legal_run fuel ops ->
+  forall ro r, In r (root_refs G ro) -> rclosed (st_store G) r -> root_closed G ro.
+Proof.
+  intros fuel ops bs G Hrun Hleg. destruct (run_legal_Inv _ _ _ _ Hrun Hleg) as (_ & _ & _ & HK & _). exact HK.
+Qed.
+Print Assumptions not_closed_before_owner.
+
+(* forwarder_terminates_on_close: a forwarder goroutine that holds an item while the merged
+   stream it feeds has been closed is told on its next send, closes the send side and then
+   closes its own source *)
+Theorem forwarder_terminates_on_close : forall fuel G k F d x ch,
+  nth_error (st_fwds G) k = Some F -> f_st F = FSend x ->
+  nth_error (streams (st_store G)) (f_dst F) = Some d -> 0 < s_rclosed d ->
+  exists G1, do_op fuel G (OFwd k ch) = (BStep, G1)
+    /\ exists F1, nth_error (st_fwds G1) k = Some F1 /\ f_st F1 = FClosing /\ f_src F1 = f_src F
+    /\ forall ch2, exists G2 F2, do_op fuel G1 (OFwd k ch2) = (BStep, G2)
+         /\ nth_error (st_fwds G2) k = Some F2 /\ f_st F2 = FDone.
+Proof. exact forwarder_stops_when_told. Qed.
+Print Assumptions forwarder_terminates_on_close.
+
 (* ------------------------------------------------------------------ non-vacuity *)
 
 (* a run with a pipe, a conversion, a copy, a merge through forwarders, sends and receives:
@@ -234,3 +290,16 @@ Example ex_array_merge :
      BRecv (PItem (IVal 3%N)); BRecv (PItem (IVal 2%N)); BRecv PEOF].
 Proof. vm_compute. reflexivity. Qed.
 
+
+(* the example run also satisfies the close hypotheses, and at its end every reader derived
+   from the pipe (stream 0) is closed: copy 2 by the user, copy 3 by the finished forwarder *)
+Example ex_legal2 : legal_run2 50 ex_ops.
+Proof. apply run_legal2b_sound. vm_compute. reflexivity. Qed.
+
+Example ex_all_closed : AllClosed (snd (run 50 init_state ex_ops)) (RS 0).
+Proof. apply (all_closedb_sound 5). vm_compute. reflexivity. Qed.
+
+(* ... hence, by close_propagates_once, the writer's next Send is refused; the model agrees *)
+Example ex_send_told :
+  fst (do_op 50 (snd (run 50 init_state ex_ops)) (OSend 0 (IVal 9%N))) = BSend SClosed.
+Proof. vm_compute. reflexivity. Qed.
